@@ -1,5 +1,6 @@
 import MemVerif.Lemmas.StackArith
 import MemVerif.Lemmas.C07
+import MemVerif.Lemmas.C06Base
 /-!
 # C02 — returned memory honours the requested size, count and alignment
 
@@ -47,5 +48,60 @@ theorem C02_static_failure_unchanged (cfg : Cfg) (s s' : Static) (size align : N
   split at h
   · simp only [Prod.mk.injEq, Out.throws.injEq] at h; exact ⟨h.1.symm, h.2.symm⟩
   · simp at h
+
+/-! ### `memory_stack::allocate` (the growing path: current block, cached block or new block) -/
+
+theorem arena_alloc_ok_head {a a' : Arena} {env env' : List (Option Nat)} {b : Blk} {ev : List UpEv}
+    (h : a.allocateBlock env = .ok a' b ev env') : ∃ blk, a'.used = blk :: a.used ∧ b = blk.usable := by
+  unfold Arena.allocateBlock at h
+  split at h
+  · simp only [ArenaRes.ok.injEq] at h
+    obtain ⟨h1, h2, _⟩ := h
+    subst h1
+    exact ⟨_, rfl, h2.symm⟩
+  · split at h
+    · simp at h
+    · simp at h
+    · simp only [ArenaRes.ok.injEq] at h
+      obtain ⟨h1, h2, _⟩ := h
+      subst h1
+      exact ⟨_, rfl, h2.symm⟩
+
+theorem bumpPtr_aligned (cfg : Cfg) (cur k : Nat) (hk : k < 64) (h : cur + cfg.fence < 2 ^ 64) :
+    bumpPtr cfg cur (2 ^ k) % 2 ^ k = 0 ∧ cur + cfg.fence ≤ bumpPtr cfg cur (2 ^ k) ∧
+      bumpPtr cfg cur (2 ^ k) < cur + cfg.fence + 2 ^ k := by
+  have := alignOff_spec (cur + cfg.fence) k hk h
+  unfold bumpPtr
+  exact ⟨this.1, by omega, by omega⟩
+
+/-- **`memory_stack::allocate` returns aligned memory** (every state, every outcome of growth, every power-of-two
+alignment): the address is a multiple of the alignment, and it is the *least* such address behind the front fence
+(no padding beyond `alignment - 1` bytes). -/
+theorem C02_memory_stack_allocate_aligned (cfg : Cfg) (s s' : MemStack) (size k p : Nat) (env : List (Option Nat))
+    (ev : List UpEv) (hk : k < 64) (hcur : s.cur + cfg.fence < 2 ^ 64)
+    (hblk : ∀ b ∈ s'.arena.used, b.base + implOff + cfg.fence < 2 ^ 64)
+    (h : s.allocate cfg size (2 ^ k) env = (s', .ok p, ev)) : p % 2 ^ k = 0 := by
+  rw [allocate_eq] at h
+  split at h
+  · simp at h
+  · simp only [Prod.mk.injEq, Out.ok.injEq] at h
+    rw [← h.2.1]
+    exact (bumpPtr_aligned cfg s.cur k hk hcur).1
+  · split at h
+    · simp at h
+    · simp at h
+    · rename_i a b ev' env' hab
+      simp only [Prod.mk.injEq] at h
+      obtain ⟨hs', hout, _⟩ := h
+      unfold finishOut at hout
+      split at hout
+      · simp at hout
+      · simp only [Out.ok.injEq] at hout
+        rw [← hout]
+        refine (bumpPtr_aligned cfg b.base k hk ?_).1
+        obtain ⟨blk, hu, hb⟩ := arena_alloc_ok_head hab
+        have := hblk blk (by rw [← hs']; simp only; rw [hu]; exact List.mem_cons_self)
+        rw [hb]
+        simpa only [Blk.usable] using this
 
 end MemVerif.Props.C02
